@@ -246,11 +246,15 @@ impl Exec {
         let us = d.as_micros() as u64;
         if us < self.min_timeout_us {
             self.min_timeout_us = us;
-            // D2 (known finding): a stall >= d between arming the timer and publishing the
-            // coroutine loses the time-out; general sweeps stay below d/3 there, the dedicated
-            // probe exercises the window on purpose
-            hook::ARMED_CLAMP_US.store((us / 3).max(1), SeqCst);
         }
+    }
+
+    /// a socket time-out is in use. Known finding D2io: a stall >= d between arming the I/O timer
+    /// and storing the coroutine loses the time-out; general sweeps stay below d/3 in that window,
+    /// the dedicated probe exercises it on purpose
+    pub fn io_timeout_used(&mut self, d: Duration) {
+        self.timeout_used(d);
+        hook::ARMED_CLAMP_US.store((self.min_timeout_us / 3).max(1), SeqCst);
     }
 
     fn new_actor(&mut self, name: &str, is_co: bool) -> (Actor, DoneGuard) {
